@@ -1152,10 +1152,12 @@ func (fv *FV) specCall(env *Env, c *SCall) Term {
 			}
 		}
 		fv.sfail("trace %s has no recorded argument %s yet (the traced callback is not called in this function)", id.Name, j.V)
-	case "apply1":
-		// apply1(f, x): result of a pure callback (role `pure`)
-		need(2)
+	case "apply1", "apply":
+		// apply(f, x…): result of a pure callback (role `pure`)
 		a := args()
+		if len(a) < 2 {
+			fv.sfail("apply(f, args…)")
+		}
 		return fv.pureApp(a[0], a[1:])
 	case "strhas":
 		// strhas(s, b): the byte b occurs in the string s; for a literal s a finite disjunction
